@@ -18,6 +18,7 @@ import bsweep
 import kani
 import c12 as base
 import c05
+import itermodels
 from common import mir_path, Inconclusive, Replay
 from smt import Q
 
@@ -42,6 +43,72 @@ def args_equal(engine, st, a1, a2):
         else:
             terms.append(x == y)
     return z3.And(*terms) if terms else z3.BoolVal(True)
+
+
+def type_identity(ctx, q, mf, ms, registry, rp, maxn):
+    """`Instruction::is_type_identical` = 'the same opcode and operands': executed from MIR on two declarations with n1, n2
+    (each 0..maxn) opaque operands under an uninterpreted operand equality, arbitrary opcodes, result types and result ids."""
+    fn = mf.get("is_type_identical", kind="fn")
+    opA, opB = z3.BitVec("opA", 32), z3.BitVec("opB", 32)
+
+    def cls(op):
+        return sym.Adt("grammar::Instruction", None, [sym.StrV("?"), op, sym.Sym("caps", "&[Capability]"), sym.Sym("exts", "&[&str]"),
+                                                      sym.Sym("ops", "&[LogicalOperand]")])
+    for n1 in range(maxn + 1):
+        for n2 in range(maxn + 1):
+            eng = sym.Engine([mf, ms], registry, models=itermodels.MODELS + base.MODELS + bsweep.EXTRA_MODELS, eager=True, loop_bound=maxn + 2)
+            A = [sym.Sym("a%d" % i, "Operand") for i in range(n1)]
+            B = [sym.Sym("b%d" % i, "Operand") for i in range(n2)]
+            mem = {("h", "clsA"): cls(opA), ("h", "clsB"): cls(opB),
+                   ("h", "a"): sym.Adt("constructs::Instruction", None, [sym.Ref(("h", "clsA")), base.some(z3.BitVec("rtA", 32)), base.some(z3.BitVec("ridA", 32)), base.vec(A)]),
+                   ("h", "b"): sym.Adt("constructs::Instruction", None, [sym.Ref(("h", "clsB")), base.some(z3.BitVec("rtB", 32)), base.some(z3.BitVec("ridB", 32)), base.vec(B)])}
+            tag = "type-identity/%d-vs-%d-operands" % (n1, n2)
+            try:
+                res = eng.run(fn, [sym.Ref(("h", "a")), sym.Ref(("h", "b"))], mem=mem)
+            except mir.Unsupported as ex:
+                ctx.ob(tag, None, "not encodable: %s" % str(ex)[:300])
+                return
+            ctx.functions.update(eng.stats.functions)
+            atoms = [sym.struct_eq(eng, None, A[i], B[i]) for i in range(min(n1, n2))]
+            spec = z3.And(opA == opB, *atoms) if n1 == n2 else z3.BoolVal(False)
+            bad = None
+            for r in res:
+                if r.status != "return":
+                    st_, m = q.check(r.pc, "type-identity-panic")
+                    if st_ != "unsat":
+                        bad = ("ends in %s" % r.status, m)
+                        break
+                    continue
+                v = r.value if z3.is_bool(r.value) else r.value != 0
+                st_, m = q.check(r.pc + [v != spec], "type-identity")
+                if st_ == "unknown":
+                    ctx.ob(tag, None, "solver: %s" % m)
+                    return
+                if st_ == "sat":
+                    bad = ("answers %s" % m.eval(v, model_completion=True), m)
+                    break
+            if bad is None:
+                ctx.ob(tag, True)
+                continue
+            m = bad[1]
+            same_op = m is not None and z3.is_true(m.eval(opA == opB, model_completion=True))
+            ida, idb = [], []
+            for i in range(max(n1, n2)):
+                eq = i < len(atoms) and m is not None and z3.is_true(m.eval(atoms[i], model_completion=True))
+                if i < n1:
+                    ida.append(10 + i)
+                if i < n2:
+                    idb.append(10 + i if eq else 100 + i)
+            cmd = "type_identical 30 %s %d %s" % (",".join(map(str, ida)) or "-", 30 if same_op else 33, ",".join(map(str, idb)) or "-")
+            real = rp.ask(cmd)
+            want = same_op and ida == idb
+            if real.get("identical") == want and real.get("reverse") == want:
+                ctx.ob(tag, None, "model-only deviation (%s); the compiled crate answers %s as it should" % (bad[0], real))
+                continue
+            ctx.ob(tag, False, "%s; compiled crate: %s, expected %s" % (bad[0], real, want))
+            ctx.violation("builder-types/identity", "is_type_identical on declarations with operands %s and %s (%s opcode) %s; 'identical' must mean the same opcode "
+                          "and the same operand list — the compiled crate answers %s" % (ida, idb, "same" if same_op else "different", bad[0], real), {"cmd": cmd, "real": real, "expected": want})
+            return
 
 
 def run(ctx):
@@ -148,6 +215,8 @@ def run(ctx):
                     ctx.violation("builder-ids/%s/%s" % (name, bad[0]),
                                   "Builder::%s from selection %s with next_id=%d: %s (returns %r, counter afterwards %s)" % (name, sel, w, bad[1], val, z3.simplify(z3.substitute(n1, (nid, z3.BitVecVal(w, 32))))),
                                   {"cmd": "builder_ids %s %d %d %s" % (name, state, w, confirmed[0] if confirmed else "explicit"), "real": confirmed[1] if confirmed else real})
+    # ---- the identity the deduplication rests on
+    type_identity(ctx, q, mf, ms, registry, rp, 3 if ctx.tier == "quick" else 5)
     # ---- type requests
     type_methods = [(n, f, l) for n, f, l in methods if (f == "autogen_type" and n.endswith("_id")) or n == "type_pointer"]
     for name, file, line in type_methods:
